@@ -11,16 +11,16 @@ TEXT = {
  'C05': "the simulation theorem is stated on ORDERED, literal-exact values (positions of surviving and new members, number literals); merge results are independent of map iteration order up to value equality (MergeOrder.v) + ordered, literal-exact comparison of Apply/MergePatch output with the ordered reference on every run",
  'C06': "theorems: the model of lazyNode.equal decides structural equality jeq of the decoded values; for ALL texts (repeated member names follow Go-map semantics: jeq of the deduplicated values, EqualDup.v) Equal is reflexive on well-formed texts, symmetric and transitive; malformed input gives false + differential execution of Equal against jeq/den/parse",
  'C07': "theorem compose_law (for all D, P1, P2 compatible), the model of MergeMergePatches computes mm, lookup characterisation, a witness that compatibility is needed + MergeMergePatches compared with mm and the law re-checked through the library on every run",
- 'C08': "theorems first_failure / error means no document / test_failed_only_by_test / copy-limit only by copy / cause_rel in the C01 domain / all_succeed, for all states and patches + errors.Is/As profile and failing index (by prefix runs) compared with the model on every run",
+ 'C08': "theorems first_failure / error means no document / test_failed_only_by_test / copy-limit only by copy / cause_rel in the C01 domain / all_succeed, for all states and patches; whole-patch cause classes with EnsurePathExistsOnAdd, AllowMissingPathOnRemove and any copy limit together (EnsureSim.v) + errors.Is/As profile and failing index (by prefix runs) compared with the model on every run",
  'C09': "theorems: every modelled call is a function of its arguments for all histories and pool residues (Pool.v) + facts about package state re-extracted from the Go source (gofacts, discipline_ok by vm_compute) + histories of calls over shared inputs and shared options values with snapshots on every run; partial: writes into caller memory are observed, not proved",
  'C10': "theorems: schedule independence of results under the pool ownership discipline for any number of threads and interleavings (Pool.v) + re-extracted facts + concurrent runs under the race detector; partial: data races are a runtime fact the model cannot exhibit",
  'C11': "theorem C11_accept_iff (DecodePatch accepts exactly the well-formed RFC 6902 patch texts) and accessor theorems about the executable model, for all inputs + exhaustive member-mutation space and random texts (incl. ill-formed UTF-8 in members) compared on every run",
  'C12': "theorems about the accumulator for all states/patches/limits (error only by a copy that exceeds a positive limit, 0 disables, other operations do not count, total stays within the limit on success), the same for the model of the legacy package (V4LimitFacts.v) + limit runs against the model, also with one options value shared across calls, on every run",
  'C13': "theorem allow_equals_stripped: Apply with the option = Apply without it of the patch with exactly the absent-target removes stripped (same failing operation, related cause), for all documents and patches in the domain (AllowEnsureFacts.v) + option-on runs compared with the model on every run",
- 'C14': "theorems: ensurePathExists of the model computes the value-level creation function (objects / arrays / padding / '-'), the added value is found at the path, every other location keeps its value, agreement with plain add (AllowEnsureFacts.v) + EnsurePathExistsOnAdd runs compared with the model on every run",
- 'C15': "theorems: string codec round trips for every scanner-accepted body, no raw < > & U+2028/9 after escaping, outputs of the model re-parse to the intended value, ApplyIndent's output is Indent of Apply's (Codec.v, PrintParse.v, OutputFacts.v), every output is valid UTF-8 given UTF-8 input (Utf8Out.v), passing tests leave the output bytes unchanged for canonically spelled inputs (TestTransparent.v) over the regenerated escape tables + output well-formedness, escape profile, re-indentation and test transparency judged on every run",
+ 'C14': "theorems: ensurePathExists of the model computes the value-level creation function (objects / arrays / padding / '-'), the added value is found at the path, every other location keeps its value, agreement with plain add (AllowEnsureFacts.v); whole patches with the option on simulate the reference that creates missing parents before each add, also followed by arbitrary further operations (EnsureSim.v) + EnsurePathExistsOnAdd runs compared with the model on every run",
+ 'C15': "theorems: string codec round trips for every scanner-accepted body, no raw < > & U+2028/9 after escaping, outputs of the model re-parse to the intended value, ApplyIndent's output is Indent of Apply's (Codec.v, PrintParse.v, OutputFacts.v), every output is valid UTF-8 given UTF-8 input (Utf8Out.v), passing tests leave the output bytes unchanged for canonically spelled inputs (TestTransparent.v), the string encoder re-translated from encode.go on every run equals the model's quote (goquote2v, QuoteTie.v) over the regenerated escape tables + output well-formedness, escape profile, re-indentation and test transparency judged on every run",
  'C16': "the scanner is re-translated from scanner.go on every run and proved equal to a reference automaton for all states x stacks x bytes; checkValid over it accepts exactly what the RFC 8259 reader Text.parse reads; Compact and Indent accept iff Valid; every entry point rejects ill-formed input (ScannerTie/Correct/Grammar/Parse, ScanFacts) + exhaustive short strings and mutated texts through every public function",
- 'C17': "theorems: Compact = print of the parse tree (both escape settings), Indent = pp, parse(print t) = t, string codec round trips, key list in document order, numbers keep their literal (ScanFacts, PrintParse, Codec) + Compact/Indent/HTMLEscape/Marshal/Unmarshal compared with the model; the encoding/json clause is compared only (partial)",
+ 'C17': "theorems: Compact = print of the parse tree (both escape settings), Indent = pp, parse(print t) = t, string codec round trips, key list in document order, numbers keep their literal (ScanFacts, PrintParse, Codec), the string encoder re-translated on every run equals quote (QuoteTie.v) + Compact/Indent/HTMLEscape/Marshal/Unmarshal compared with the model; the encoding/json clause is compared only (partial)",
  'C18': "theorems: the legacy patch engine computes the RFC 6902 reference up to member order, with exactly two documented deviations (replace / copy of an absent member), same first failing operation (V4ApplySim.v); the index arithmetic of the legacy partialArray methods re-translated from patch.go on every run and proved equal to the model (goidx4v, IndexTie4.v) + staged root package compared with the RFC reference on every run",
  'C19': "theorems: the legacy merge functions compute RFC 7396 merge_patch / mm exactly on the denoted values, legacy Equal = structural equality on escape-free texts and is sound everywhere (V4MergeFacts.v, V4EqualFacts.v), with counterexample theorems for the documented limits + staged root package compared with the reference on every run",
  'C20': "theorem: the command model is the fold of the library model over the patch files, no output on any failure (Properties/C20.v) + the built binary run on generated stdin/patch-file lists on every run",
